@@ -414,6 +414,7 @@ def wl_histories(ctx, rng, case_no):
         ctx.hist("kind", kind)
         ctx.hist("overflow", cfg["overflow"])
         ctx.hist("frame_heights_seen", len(s.heights))
+        ctx.distinct("final_screens", tuple(s.screen.lines()[-12:]))
         ctx.case_done(("h", kind, repr(cfg), repr(ops)), s.redraws >= 3 and len(s.heights) >= 2 and prints >= 2,
                       {"kind": kind, "config": cfg, "ops": ops[:20]})
     finally:
